@@ -80,7 +80,9 @@ func FromPlain(content []byte) string {
 			break
 		}
 		if utf8.RuneStart(b) {
-			content = content[:i]
+			if !utf8.FullRune(content[i:]) {
+				content = content[:i]
+			}
 			break
 		}
 	}
